@@ -7,7 +7,9 @@
  * a state word; conservation and exactly-once at every hand-over.
  * args: seed= size=<queue capacity> thieves= ops= seq_rounds=
  */
+#ifndef _GNU_SOURCE
 #define _GNU_SOURCE
+#endif
 #include <pthread.h>
 #include <stdatomic.h>
 #include "myth/myth.h"
